@@ -46,7 +46,10 @@ def run(algo, NA, ops, exact=True, seed=0, shared=True, eq_lr=False):
     lrkw = {}
     if exact:
         same = 2.0 ** -8          # eq_lr: the very same float object for both (lr = 1e-3; Algo(lr_actor=lr, lr_critic=lr))
-        lrkw = dict(lr_actor=same, lr_critic=(same if eq_lr else 2.0 ** -7)) if algo in ("DDPG", "TD3", "MADDPG", "MATD3") else dict(lr=2.0 ** -8)
+        # eq_lr == "value": two DISTINCT float objects of equal value (e.g. read from a configuration file)
+        other = float(str(same)) if eq_lr == "value" else same
+        assert eq_lr != "value" or (other is not same and other == same)
+        lrkw = dict(lr_actor=same, lr_critic=(other if eq_lr else 2.0 ** -7)) if algo in ("DDPG", "TD3", "MADDPG", "MATD3") else dict(lr=2.0 ** -8)
         lrkw["gamma"] = 0.75
     pop = [zoo.make_agent(algo, "vector", seed=seed + i, index=i, hp=(hp if shared else mk(algo)), **lrkw) for i in range(NA)]
     names = list(pop[0].registry.hp_config.names())
@@ -105,6 +108,16 @@ def run(algo, NA, ops, exact=True, seed=0, shared=True, eq_lr=False):
                 zoo.learn(pop[a], algo, op[2])          # optimizer state becomes non-empty before later mutations
                 e["op"] = "noop"
                 changed = []
+            elif op[0] == "set":
+                # an assignment from outside (a schedule): a hyperparameter that is no learning rate gets another in-range value
+                a = op[1] - 1
+                cand = [n for n in names if n not in lrnames]
+                n = cand[op[2] % len(cand)]
+                p_ = pop[a].registry.hp_config[n]
+                x = p_.dtype(p_.max) if getattr(pop[a], n) != p_.dtype(p_.max) else p_.dtype(p_.min)
+                setattr(pop[a], n, x)
+                e["a"], e["h"], e["x"] = a + 1, names.index(n) + 1, fr(x)
+                changed = [a]
             elif op[0] == "copy":
                 a, c = op[1] - 1, op[2] - 1
                 pop[c] = pop[a].clone(index=pop[c].index)
@@ -118,7 +131,7 @@ def run(algo, NA, ops, exact=True, seed=0, shared=True, eq_lr=False):
                 e["op"] = "facts"
                 oth = all(after[b] == before[b] for b in range(NA) if b not in changed)
                 one, own, rng_ok, isint, lre = True, True, True, True, True
-                if op[0] not in ("copy", "learn"):
+                if op[0] not in ("copy", "learn", "set"):
                     for a_ in changed:
                         diff = [g for g in range(len(names)) if after[a_][g] != before[a_][g]]
                         m = pop[a_].mut
@@ -151,4 +164,4 @@ def run(algo, NA, ops, exact=True, seed=0, shared=True, eq_lr=False):
             ev.append(e)
             break
         ev.append(e)
-    return {"cfg": {"algo": algo, "NA": NA, "hps": cfg_hps, "init": init, "exact": bool(exact), "shared": bool(shared), "eq_lr": bool(eq_lr)}, "ev": ev}
+    return {"cfg": {"algo": algo, "NA": NA, "hps": cfg_hps, "init": init, "exact": bool(exact), "shared": bool(shared), "eq_lr": (eq_lr if eq_lr == "value" else bool(eq_lr))}, "ev": ev}
